@@ -7,6 +7,7 @@ from typing import Set
 
 from ..core import rule
 from ..program import AnalysisError, dotted, src
+from ..dataflow import DefUse, origins
 from ..core import walk_local  # inline-aware
 from .common import where
 
@@ -113,14 +114,37 @@ def a3(ctx):
     tm = ctx.func(CARD + ".apply_text_match")
     cfg = ctx.cfg(tm)
     # negate
+    du = DefUse(cfg)
+
+    def is_yes_test(node, t) -> bool:
+        """t (a test atom at node) is `<...> == "yes"`, directly or through a local name."""
+        cands = [t]
+        if isinstance(t, ast.Name):
+            cands = [o.leaf for o in origins(du, node, t) if o.kind == "expr" and o.leaf is not None and not o.path]
+            if not cands:
+                return False
+        return all(isinstance(x, ast.Compare) and len(x.ops) == 1 and isinstance(x.ops[0], ast.Eq)
+                   and "yes" in (ctx.P.try_fold(tm.module, x.comparators[0]), ctx.P.try_fold(tm.module, x.left)) for x in cands)
+
     neg_ok = False
     for r in [n for n in cfg.nodes if n.kind == "return"]:
         v = r.ast.value
         is_not = isinstance(v, ast.UnaryOp) and isinstance(v.op, ast.Not)
-        for t, pol in cfg.required_conditions(r):
-            if isinstance(t, ast.Compare) and isinstance(t.ops[0], ast.Eq) and ctx.P.try_fold(tm.module, t.comparators[0]) == "yes":
-                if (pol and is_not):
-                    neg_ok = True
+        for tn in [x for x in cfg.nodes if x.kind == "test"]:
+            if not is_yes_test(tn, tn.ast):
+                continue
+            # the negated return is reached only through the 'yes' edge, the plain return only through the other
+            only_t = r.id not in cfg.reachable([cfg.entry], block_edges=[(tn, m, l) for m, l in tn.succ if l == "t"])
+            if only_t and is_not:
+                neg_ok = True
+    # ... and the un-negated result is not returned on the 'yes' side
+    for r in [n for n in cfg.nodes if n.kind == "return"]:
+        v = r.ast.value
+        if isinstance(v, ast.UnaryOp) and isinstance(v.op, ast.Not):
+            continue
+        for tn in [x for x in cfg.nodes if x.kind == "test"]:
+            if is_yes_test(tn, tn.ast) and r.id not in cfg.reachable([cfg.entry], block_edges=[(tn, m, l) for m, l in tn.succ if l == "t"]):
+                neg_ok = False
     obs.append(ctx.ob(neg_ok, tm.qualname, tm.where, "negate-condition=yes negates", "returns `not matches` under == 'yes'",
                       "apply_text_match does not return the negation exactly when negate-condition is 'yes'"))
     defaults = {}
@@ -133,20 +157,35 @@ def a3(ctx):
                       "collation default", "default %r" % defaults.get("collation"), "collation default is %r" % defaults.get("collation")))
     # the value is the first, the pattern the second operand
     call_ok = False
-    for n in walk_local(tm.node):
-        if isinstance(n, ast.Call) and isinstance(n.func, ast.Subscript) and (dotted(n.func.value) or "").endswith("collations") and len(n.args) == 3:
-            a0 = {x.id for x in ast.walk(n.args[0]) if isinstance(x, ast.Name)}
-            a1 = src(n.args[1])
-            call_ok = "value" in a0 and "el.text" in a1
+    p_el, p_value = (tm.params + ["el", "value"])[:2]
+    for nd in cfg.stmt_nodes():
+        for n in nd.calls():
+            if len(n.args) != 3:
+                continue
+            fo = [n.func] if isinstance(n.func, ast.Subscript) else \
+                [o.leaf for o in origins(du, nd, n.func) if o.kind == "expr" and o.leaf is not None and not o.path] if isinstance(n.func, ast.Name) else []
+            if not fo or not all(isinstance(x, ast.Subscript) and (dotted(x.value) or "").endswith("collations") for x in fo):
+                continue
+            o0 = origins(du, nd, n.args[0])
+            o1 = origins(du, nd, n.args[1])
+            v_ok = bool(o0) and all(o.kind == "param" and o.name == p_value and not o.path for o in o0)
+            def is_text(x):
+                # exactly the element's text: `el.text` or `el.text or ""`
+                if isinstance(x, ast.BoolOp) and isinstance(x.op, ast.Or) and len(x.values) == 2 and isinstance(x.values[1], ast.Constant) and x.values[1].value == "":
+                    x = x.values[0]
+                return dotted(x) == p_el + ".text"
+            t_ok = bool(o1) and all(o.kind == "expr" and o.leaf is not None and not o.path and is_text(o.leaf) for o in o1)
+            call_ok = call_ok or (v_ok and t_ok)
     obs.append(ctx.ob(call_ok, tm.qualname, tm.where, "collation(value, pattern, match_type)", "operands in the right order",
                       "apply_text_match does not call the collation as (card value, pattern text, match type)"))
     af = ctx.func(CARD + ".apply_filter")
     ok_map = False
     dflt = None
     for n in walk_local(af.node):
-        if isinstance(n, ast.Dict):
+        tbl = n if isinstance(n, ast.Dict) else (ctx.P.dict_literal(af, n.value) if isinstance(n, ast.Subscript) else None)
+        if tbl is not None:
             d = {}
-            for k, v in zip(n.keys, n.values):
+            for k, v in zip(tbl.keys, tbl.values):
                 d[ctx.P.try_fold(af.module, k)] = dotted(v)
             if d == {"allof": "all", "anyof": "any"}:
                 ok_map = True
